@@ -4,8 +4,8 @@ import (
 	"bytes"
 	"context"
 	"fmt"
-	"sync"
 	"io"
+	"sync"
 	"testing"
 	"testing/synctest"
 	"time"
@@ -316,9 +316,9 @@ func doStall(e *env, lc *libConn, o outOp, payload, keep []byte) (lost bool, err
 
 type c02Result struct {
 	CtlAfterFirst int // control frames that directly follow the non-final first frame of a compressed message
-	Rep        *ref.StreamReport
-	Asymmetric bool
-	Deflate    bool
+	Rep           *ref.StreamReport
+	Asymmetric    bool
+	Deflate       bool
 }
 
 func runC02(t fataler, mode c03Mode, threshold int, ops []outOp, closeCode int, closeReason string, doClose bool, storm bool) (string, c02Result) {
